@@ -157,9 +157,11 @@ sample_at(const uint8_t* base, enum SampleType t, size_t i)
 }
 
 // ---------------------------------------------------------------------------------------- mock driver
+static int next_handle = 1;
 struct MCam
 {
     struct Camera cam;
+    int h;
     struct CameraProperties props;
     struct ImageShape shape;
     int s;
@@ -171,6 +173,7 @@ struct MCam
 struct MSto
 {
     struct Storage sto;
+    int h;
     int s;
     int running;
     long nappend;
@@ -218,7 +221,7 @@ c_start(struct Camera* c)
     m->next_hw = 0;
     m->triggers = 0;
     m->zero_done = 0;
-    ev("{\"e\":\"CamStart\",\"s\":%d}", m->s);
+    ev("{\"e\":\"CamStart\",\"s\":%d,\"hd\":%d}", m->s, m->h);
     return Device_Ok;
 }
 static enum DeviceStatusCode
@@ -226,7 +229,7 @@ c_stop(struct Camera* c)
 {
     struct MCam* m = containerof(c, struct MCam, cam);
     m->running = 0;
-    ev("{\"e\":\"CamStop\",\"s\":%d}", m->s);
+    ev("{\"e\":\"CamStop\",\"s\":%d,\"hd\":%d}", m->s, m->h);
     vs_signal(&trig_obj[m->s]);
     vs_yield("cam_stop");
     return Device_Ok;
@@ -236,7 +239,7 @@ c_trig(struct Camera* c)
 {
     struct MCam* m = containerof(c, struct MCam, cam);
     m->triggers++;
-    ev("{\"e\":\"CamTrig\",\"s\":%d}", m->s);
+    ev("{\"e\":\"CamTrig\",\"s\":%d,\"hd\":%d}", m->s, m->h);
     vs_signal(&trig_obj[m->s]);
     return Device_Ok;
 }
@@ -275,7 +278,7 @@ c_frame(struct Camera* c, void* im, size_t* nbytes, struct ImageInfo* info)
     info->hardware_frame_id = hw;
     info->hardware_timestamp = hw;
     *nbytes = n;
-    ev("{\"e\":\"CamFrame\",\"s\":%d,\"hw\":%ld,\"w\":%u,\"h\":%u,\"ty\":\"%s\",\"tag\":%u}", s, (long)hw, m->shape.dims.width,
+    ev("{\"e\":\"CamFrame\",\"s\":%d,\"hd\":%d,\"hw\":%ld,\"w\":%u,\"h\":%u,\"ty\":\"%s\",\"tag\":%u}", s, m->h, (long)hw, m->shape.dims.width,
        m->shape.dims.height, tyname(m->shape.type), tag_of((const uint8_t*)im, n));
     return Device_Ok;
 }
@@ -357,7 +360,7 @@ s_start(struct Storage* st)
     m->nappend = 0;
     m->nframes = 0;
     stor_count[m->s] = 0;
-    ev("{\"e\":\"StorStart\",\"s\":%d}", m->s);
+    ev("{\"e\":\"StorStart\",\"s\":%d,\"hd\":%d}", m->s, m->h);
     return DeviceState_Running;
 }
 static enum DeviceState
@@ -365,7 +368,7 @@ s_stop(struct Storage* st)
 {
     struct MSto* m = containerof(st, struct MSto, sto);
     m->running = 0;
-    ev("{\"e\":\"StorStop\",\"s\":%d}", m->s);
+    ev("{\"e\":\"StorStop\",\"s\":%d,\"hd\":%d}", m->s, m->h);
     return DeviceState_Armed;
 }
 static enum DeviceState
@@ -396,7 +399,7 @@ s_append(struct Storage* st, const struct VideoFrame* f, size_t* nbytes)
             p += v->bytes_of_frame;
         }
     }
-    ev("{\"e\":\"StorAppend\",\"s\":%d,\"nbytes\":%ld,\"stable\":%s,\"rest\":%ld,\"frames\":%s}", s, (long)*nbytes, t0 == t1 ? "true" : "false", rest, buf);
+    ev("{\"e\":\"StorAppend\",\"s\":%d,\"hd\":%d,\"nbytes\":%ld,\"stable\":%s,\"rest\":%ld,\"frames\":%s}", s, m->h, (long)*nbytes, t0 == t1 ? "true" : "false", rest, buf);
     free(buf);
     return DeviceState_Running;
 }
@@ -423,17 +426,19 @@ d_open(struct Driver* d, uint64_t i, struct Device** out)
     if (i < 2) {
         struct MCam* c = (struct MCam*)calloc(1, sizeof *c);
         c->s = (int)i;
+        c->h = next_handle++;
         c->cam = (struct Camera){ .state = DeviceState_AwaitingConfiguration, .set = c_set, .get = c_get, .get_meta = c_meta, .get_shape = c_shape,
                                   .start = c_start, .stop = c_stop, .execute_trigger = c_trig, .get_frame = c_frame };
         *out = &c->cam.device;
-        ev("{\"e\":\"DevOpen\",\"kind\":\"cam\",\"s\":%d}", (int)i);
+        ev("{\"e\":\"DevOpen\",\"kind\":\"cam\",\"s\":%d,\"hd\":%d}", (int)i, c->h);
     } else {
         struct MSto* s = (struct MSto*)calloc(1, sizeof *s);
         s->s = (int)(i - 2);
+        s->h = next_handle++;
         s->sto = (struct Storage){ .state = DeviceState_AwaitingConfiguration, .set = s_set, .get = s_get, .get_meta = s_meta, .start = s_start,
                                    .append = s_append, .stop = s_stop, .destroy = s_destroy, .reserve_image_shape = s_reserve };
         *out = &s->sto.device;
-        ev("{\"e\":\"DevOpen\",\"kind\":\"sto\",\"s\":%d}", (int)(i - 2));
+        ev("{\"e\":\"DevOpen\",\"kind\":\"sto\",\"s\":%d,\"hd\":%d}", (int)(i - 2), s->h);
     }
     return Device_Ok;
 }
@@ -442,11 +447,12 @@ d_close(struct Driver* d, struct Device* dev)
 {
     (void)d;
     if (dev->identifier.kind == DeviceKind_Camera) {
-        ev("{\"e\":\"DevClose\",\"kind\":\"cam\",\"s\":%d}", (int)dev->identifier.device_id);
-        free(containerof(dev, struct Camera, device));
+        struct MCam* mc = containerof(containerof(dev, struct Camera, device), struct MCam, cam);
+        ev("{\"e\":\"DevClose\",\"kind\":\"cam\",\"s\":%d,\"hd\":%d}", (int)dev->identifier.device_id, mc->h);
+        free(mc);
     } else {
         struct Storage* s = containerof(dev, struct Storage, device);
-        ev("{\"e\":\"DevClose\",\"kind\":\"sto\",\"s\":%d}", (int)dev->identifier.device_id - 2);
+        ev("{\"e\":\"DevClose\",\"kind\":\"sto\",\"s\":%d,\"hd\":%d}", (int)dev->identifier.device_id - 2, containerof(s, struct MSto, sto)->h);
         s->destroy(s);
     }
     return Device_Ok;
@@ -480,6 +486,8 @@ reporter(int is_error, const char* file, int line, const char* function, const c
 
 // ---------------------------------------------------------------------------------------- client
 static int aborter_done = 1, start_returned = 0;
+static int cam_of[MAXS] = { 0, 1 }, sto_of[MAXS] = { 0, 1 }; // device chosen per stream (-1 = stream not configured)
+static int explicit_map = 0, noinit = 0;
 static struct AcquireRuntime* rt;
 static struct AcquireProperties props;
 static struct VideoFrame *mbeg[MAXS], *mend[MAXS];
@@ -490,14 +498,21 @@ do_configure(void)
     const struct DeviceManager* dm = acquire_device_manager(rt);
     memset(&props, 0, sizeof props);
     acquire_get_configuration(rt, &props);
-    for (int s = 0; s < nstreams; s++) {
+    for (int s = 0; s < MAXS; s++) {
+        int on = explicit_map ? (cam_of[s] >= 0 && sto_of[s] >= 0) : (s < nstreams);
+        if (!on) {
+            memset(&props.video[s].camera.identifier, 0, sizeof props.video[s].camera.identifier);
+            memset(&props.video[s].storage.identifier, 0, sizeof props.video[s].storage.identifier);
+            continue;
+        }
+        int c = explicit_map ? cam_of[s] : s, t = explicit_map ? sto_of[s] : s;
         char nm[32];
-        snprintf(nm, sizeof nm, "vcam%d", s);
+        snprintf(nm, sizeof nm, "vcam%d", c);
         device_manager_select(dm, DeviceKind_Camera, nm, strlen(nm), &props.video[s].camera.identifier);
-        snprintf(nm, sizeof nm, "vstore%d", s);
+        snprintf(nm, sizeof nm, "vstore%d", t);
         device_manager_select(dm, DeviceKind_Storage, nm, strlen(nm), &props.video[s].storage.identifier);
-        props.video[s].camera.settings.shape.x = SC[s].w;
-        props.video[s].camera.settings.shape.y = SC[s].h;
+        props.video[s].camera.settings.shape.x = SC[c].w;
+        props.video[s].camera.settings.shape.y = SC[c].h;
         props.video[s].max_frame_count = SC[s].frames < 0 ? (uint64_t)-1 : (uint64_t)SC[s].frames;
         props.video[s].frame_average_count = (uint32_t)SC[s].avg;
         props.video[s].storage.write_delay_ms = SC[s].delay_ms;
@@ -593,6 +608,13 @@ run_prog(void)
                 for (int j = 0; j < k; j++)
                     vs_yield_low("client_trig");
             }
+        } else if (!strcmp(op, "cfg")) {
+            // cfg C0 S0 C1 S1: choose devices per stream (-1 -1 = stream not configured), then acquire_configure
+            cam_of[0] = atoi(prog[++i]); sto_of[0] = atoi(prog[++i]);
+            cam_of[1] = atoi(prog[++i]); sto_of[1] = atoi(prog[++i]);
+            explicit_map = 1;
+            do_configure();
+            api("configure");
         } else if (!strcmp(op, "join2")) {
             while (!aborter_done)
                 vs_yield_low("wait_aborter");
@@ -708,6 +730,7 @@ main(int argc, char** argv)
         } else if (!strcmp(tok, "cap")) ring_cap = (size_t)atol(strtok(0, " \t\n"));
         else if (!strcmp(tok, "fill")) ring_fill = atoi(strtok(0, " \t\n"));
         else if (!strcmp(tok, "streams")) nstreams = atoi(strtok(0, " \t\n"));
+        else if (!strcmp(tok, "noinit")) noinit = atoi(strtok(0, " \t\n"));
         else if (!strcmp(tok, "stream")) {
             int s = atoi(strtok(0, " \t\n"));
             char* k;
@@ -754,14 +777,19 @@ main(int argc, char** argv)
     rt = acquire_init(reporter);
     if (!rt)
         return 2;
-    do_configure();
-    pending_api = "configure";
-    ev("{\"e\":\"Api\",\"op\":\"configure\",\"ph\":\"call\"}");
-    int rc = acquire_configure(rt, &props);
-    ev("{\"e\":\"Api\",\"op\":\"configure\",\"ph\":\"ret\",\"rc\":%d,\"st\":%d}", rc, (int)acquire_get_state(rt));
-    if (rc != 0) {
-        flush_trace();
-        return 2;
+    if (!noinit) {
+        do_configure();
+        pending_api = "configure";
+        ev("{\"e\":\"Api\",\"op\":\"configure\",\"ph\":\"call\"}");
+        int rc = acquire_configure(rt, &props);
+        ev("{\"e\":\"Api\",\"op\":\"configure\",\"ph\":\"ret\",\"rc\":%d,\"st\":%d}", rc, (int)acquire_get_state(rt));
+        if (rc != 0) {
+            flush_trace();
+            return 2;
+        }
+    } else {
+        memset(&props, 0, sizeof props);
+        acquire_get_configuration(rt, &props);
     }
     vs_activate(1);
     if (aborter_delay >= 0) {
